@@ -91,6 +91,7 @@ def step (st : St) : List String → St × String
       let db1 : DB := { st.db with k := { k with bal := upd k.bal a nb, exist := upd k.exist a true } }
       ({ db := if sign == "+" then addBalance db1 a x else subBalance db1 a x }, "ok")
     | _, _ => (st, "bad-op")
+  | ["createacct", a] => (match a.toNat? with | some a => ({ db := createAccount st.db a }, "ok") | none => (st, "bad-op"))
   | ["sync"] => ({ db := syncBalances st.db addrs }, "ok")
   | "ptx" :: _ => (st, "skip")
   | ["noop"] => (st, "ok")
